@@ -395,7 +395,11 @@ class LogicalType(type):  # noqa
 
             # 2. try to transform in strict mode
             if not context.options.no_data_loss or not context.options.no_explicit_cast:
-                strict_options = utype.Options(no_data_loss=True, no_explicit_cast=True)
+                # the trial stages ask whether a condition accepts the value AS IT IS: the invalid_* policies
+                # (drop / keep what does not convert) only act in the stage whose result is returned (4.)
+                trial = dict(invalid_items=utype.Options.THROW, invalid_keys=utype.Options.THROW,
+                             invalid_values=utype.Options.THROW)
+                strict_options = utype.Options(no_data_loss=True, no_explicit_cast=True, **trial)
 
                 for con in cls.args:
                     with context.enter(cls.combinator, options=strict_options) as new_context:
@@ -411,7 +415,9 @@ class LogicalType(type):  # noqa
             # 3. try to transform with no data loss
             # e.g. Union[str, List[str]] -> [1, 2] -> ['1', '2']
             if not context.options.no_data_loss and not context.options.no_explicit_cast:
-                no_loss_options = utype.Options(no_data_loss=True)
+                no_loss_options = utype.Options(
+                    no_data_loss=True, invalid_items=utype.Options.THROW, invalid_keys=utype.Options.THROW,
+                    invalid_values=utype.Options.THROW)
 
                 for con in cls.args:
                     with context.enter(cls.combinator, options=no_loss_options) as new_context:
